@@ -1095,9 +1095,8 @@ def c25_bounds(R):
         fn = tree.func(BAL, f"Balancer.{name}")
         FF_ = util.Frags(fn)
         tbl = "_lower_bounds" if "lower" in name else "_upper_bounds"
-        FF_.has(f"old_b = self.{tbl}[o.hash()]")
         R.check(
-            FF_.has(f"b = {fold}(b, old_b)") or FF_.has(f"b = {fold}(old_b, b)"),
+            FF_.has(f"old_b = self.{tbl}[o.hash()]\nb = {fold}(b, old_b)") or FF_.has(f"old_b = self.{tbl}[o.hash()]\nb = {fold}(old_b, b)"),
             m,
             fn,
             f"{name} keeps the {fold} of old and new",
@@ -1107,8 +1106,14 @@ def c25_bounds(R):
     ri = tree.func(BAL, "Balancer._replacements_iter")
     FR = util.Frags(ri)
     R.check(
-        FR.has("max_int = (1 << len(ast)) - 1") and FR.has("min_int = 0")
-        and FR.has("self._lower_bounds.get(k, min_int)") and FR.has("self._upper_bounds.get(k, max_int)") and FR.has("ast.intersection(bound_si)"),
+        FR.has(
+            "max_int = (1 << len(ast)) - 1\n"
+            "min_int = 0\n"
+            "mn = self._lower_bounds.get(k, min_int)\n"
+            "mx = self._upper_bounds.get(k, max_int)\n"
+            "bound_si = claripy.BVS('bound', len(ast)).annotate(claripy.annotation.StridedIntervalAnnotation(1, mn, mx))"
+        )
+        and any(isinstance(c_, ast.Call) and isinstance(c_.func, ast.Attribute) and c_.func.attr == "intersection" and ast.unparse(c_.func.value) == FR.code("ast") for c_ in ast.walk(ri)),
         m,
         ri,
         "replacement = expression intersected with [lower, upper], defaults 0 / all-ones",
